@@ -111,21 +111,48 @@ def short_date_recogniser_agrees(run: Run, model: PyModel, rid: str) -> bool:
     I = Interp(model)
     n = 0
     wrong = []
-    for parts, want, desc in _calendar_classes():
+    import itertools
+
+    def evaluate(parts):
         s = SeqStr(tuple(CharSet(frozenset(p)) if len(p) > 1 else p for p in parts))
+        res = I.run_function(q, [s], st=State())
+        vals = {("raises " + v.exc) if isinstance(v, Raised) else repr(v) for v, _ in res}
+        return vals, [x for _, st in res for x in st.imprecise]
+
+    def refine(parts):
+        # a class the recogniser does not treat uniformly is split position by position (left to right) until every piece is; the pieces are still character-set
+        # products, and a piece of one string is decided outright
+        work = [tuple(parts)]
+        budget = 600
+        while work:
+            cur = work.pop()
+            vals, imprecise = evaluate(cur)
+            budget -= 1
+            if imprecise or not vals <= {"True", "False"} or budget < 0:
+                yield cur, None, imprecise[:2] or sorted(vals)
+                return
+            if len(vals) == 1:
+                yield cur, vals == {"True"}, None
+                continue
+            i = next((k for k, p in enumerate(cur) if len(p) > 1), None)
+            if i is None:
+                yield cur, None, sorted(vals)
+                return
+            work.extend(cur[:i] + (ch,) + cur[i + 1:] for ch in cur[i])
+
+    for parts, want, desc in _calendar_classes():
         try:
-            res = I.run_function(q, [s], st=State())
+            pieces = list(refine(parts))
         except Exception as e:
             run.undecided(rid, "is_short_date_spec", f"cannot evaluate the recogniser abstractly: {type(e).__name__}: {e}")
             return False
         n += 1
-        vals = {("raises " + v.exc) if isinstance(v, Raised) else repr(v) for v, _ in res}
-        imprecise = [x for _, st in res for x in st.imprecise]
-        if imprecise or not vals <= {"True", "False"} or len(vals) != 1:
-            run.undecided(rid, "is_short_date_spec", f"{desc}: {imprecise[:2] or sorted(vals)}")
-            return False
-        if (vals == {"True"}) != want:
-            wrong.append((desc, want))
+        for cur, got, why in pieces:
+            if got is None:
+                run.undecided(rid, "is_short_date_spec", f"{desc}: {why}")
+                return False
+            if got != want:
+                wrong.append((desc if len(pieces) == 1 else f"{desc}, namely {''.join(c if len(c) == 1 else '[' + c + ']' for c in cur)}", want))
     run.floor("calendar classes evaluated", n, 1080)
     if wrong:
         desc, want = wrong[0]
